@@ -293,7 +293,7 @@ def _statics(ck, p, byk):
         const_second = all("k" in t["args"][1] for _, t in news)
         users = [g for g in p.fns.values() if _uses_static(g, "fst_dictionary::AUTOMATON_BUILDERS") and g.get("kind") != "Closure"]
         only_build = all(keyname(p, g).startswith("harper_core::spell::fst_dictionary::build_dfa") or "AUTOMATON_BUILDERS" in g.name for g in users)
-        ck.decide(rule, "AUTOMATON_BUILDERS:keyed", eqs >= 2 and bool(news) and const_second and only_build, b.span,
+        ck.decide(rule, "AUTOMATON_BUILDERS:keyed", eqs >= 1 and bool(news) and const_second and only_build, b.span,
                   "builders are looked up by comparing the stored distance with the parameter (%d comparisons), built from (max_distance, constant)=%s, used only by build_dfa=%s" % (eqs, const_second, only_build))
     cc = [s for s in p.statics if s["name"].endswith("lint_group::CURATED_CONFIG")]
     if ck.anchor(rule, "CURATED_CONFIG", cc):
